@@ -137,7 +137,13 @@ def observe(a, mt, tol=0.05):
     fr = conv.get_scaled_positions(wrap=False)
     a3 = a.copy()
     a3.set_pbc(True)
-    return {"pbc": [bool(x) for x in conv.get_pbc()], "frac": np.rint(fr * 1e6).astype(int).tolist(), "n_conv": len(conv),
+    # the layer's atomic extent measured on the INPUT, along the normal of its periodic plane (the input slice is contiguous)
+    pb = a.get_pbc()
+    u, v = a.cell[:][pb]
+    nrm = np.cross(u, v)
+    nrm /= np.linalg.norm(nrm)
+    extent_in = float(np.ptp(a.positions @ nrm))
+    return {"extent_in": int(round(extent_in * 1e4)), "pbc": [bool(x) for x in conv.get_pbc()], "frac": np.rint(fr * 1e6).astype(int).tolist(), "n_conv": len(conv),
             "a_len": int(round(par[0] * 1e4)), "b_len": int(round(par[1] * 1e4)), "c_len": int(round(par[2] * 1e4)),
             "alpha": int(round(par[3] * 1e4)), "beta": int(round(par[4] * 1e4)), "gamma": int(round(par[5] * 1e4)),
             "extent": int(round(float(np.ptp(fr[:, 2]) * par[2]) * 1e4)), "min_thick": int(round(mt * 1e4)),
@@ -162,7 +168,7 @@ def work(job):
             except Exception as e:
                 r["error"] = "%s: %s" % (type(e).__name__, str(e)[:160])
                 r.update({"pbc": [False] * 3, "frac": [], "n_conv": 0, "a_len": 0, "b_len": 0, "c_len": 0, "alpha": 0, "beta": 0, "gamma": 0,
-                          "extent": 0, "min_thick": 0, "id": "", "number": 0, "occ": [], "id3d": "x"})
+                          "extent": 0, "extent_in": 0, "min_thick": 0, "id": "", "number": 0, "occ": [], "id3d": "x"})
             out.append(r)
     return out
 
